@@ -31,7 +31,7 @@ func init() {
 }
 
 // fieldsBody prints `item|index|index0|rindex|rindex0|length|first|last;` with mid in the middle.
-func fieldsBody(v string, item []pnode, mid []pnode) []pnode {
+func fieldsBody(item []pnode, mid []pnode) []pnode {
 	out := append([]pnode{}, item...)
 	out = append(out, mid...)
 	for _, f := range []string{"index", "index0", "rindex", "rindex0", "length", "first", "last"} {
@@ -101,7 +101,7 @@ func ctlNodes(ctl string) []pnode {
 	panic("bad ctl " + ctl)
 }
 
-func loopsClause(exp string, tablerow bool) string {
+func loopsClause(tablerow bool) string {
 	if tablerow {
 		return "tablerow-items-and-shape"
 	}
@@ -163,7 +163,7 @@ func buildLoops(spec string) *ctlCase {
 	f := specFields(spec)
 	finish := func(prog []pnode, env map[string]*V, kind string, tablerow bool) *ctlCase {
 		exp, in := refResult(prog, env, nil)
-		c := &ctlCase{Src: progSrc(prog), Env: env, Expect: exp, Clause: loopsClause(exp, tablerow), Kind: kind}
+		c := &ctlCase{Src: progSrc(prog), Env: env, Expect: exp, Clause: loopsClause(tablerow), Kind: kind}
 		for k := range in.events {
 			c.Notes = append(c.Notes, "event="+k)
 		}
@@ -196,7 +196,7 @@ func buildLoops(spec string) *ctlCase {
 		} else {
 			setMods(&lp, modExpr(off, ""), modExpr(lim, ""), rev, tag)
 		}
-		lp.Body = fieldsBody("it", []pnode{pPrint{pv("it")}}, ctlNodes(ctl))
+		lp.Body = fieldsBody([]pnode{pPrint{pv("it")}}, ctlNodes(ctl))
 		prog := []pnode{pText{"["}, lp, pText{"]"}, pPrint{pv("it")}, pPrint{pf("forloop", "index")}}
 		kind := "grid"
 		if f[0] == "v" {
@@ -214,7 +214,7 @@ func buildLoops(spec string) *ctlCase {
 		off, lim, rev := findMod(f[4])
 		lp := pFor{Var: "it", Coll: coll}
 		setMods(&lp, modExpr(off, ""), modExpr(lim, ""), rev, tag)
-		lp.Body = fieldsBody("it", []pnode{pPrint{pv("it")}}, nil)
+		lp.Body = fieldsBody([]pnode{pPrint{pv("it")}}, nil)
 		return finish([]pnode{pText{"["}, lp, pText{"]"}}, env, "range", lp.Tablerow)
 	case f[0] == "c" && len(f) == 4:
 		var ck *collKind
@@ -243,7 +243,7 @@ func buildLoops(spec string) *ctlCase {
 		if ck.pairs {
 			item = []pnode{pPrint{pidx("it", 0)}, pText{"="}, pPrint{pidx("it", 1)}}
 		}
-		lp.Body = fieldsBody("it", item, nil)
+		lp.Body = fieldsBody(item, nil)
 		return finish([]pnode{pText{"["}, lp, pText{"]"}}, env, "collection-"+ck.name, lp.Tablerow)
 	case f[0] == "t" && len(f) == 4:
 		vals := map[string]*V{"int64": VInt(4, 2), "float": VFlt(1, 2), "half": VFlt(1, 1.5), "string": VStr("2"), "nil": VNil(), "bool": VBool(true), "uint8": VInt(6, 2), "int": VInt(0, 2)}
@@ -265,7 +265,7 @@ func buildLoops(spec string) *ctlCase {
 			lp.Cols = pv("m")
 			lp.Order = append(lp.Order, "cols")
 		}
-		lp.Body = fieldsBody("it", []pnode{pPrint{pv("it")}}, nil)
+		lp.Body = fieldsBody([]pnode{pPrint{pv("it")}}, nil)
 		c := finish([]pnode{pText{"["}, lp, pText{"]"}}, env, "modifier-kinds", lp.Tablerow)
 		if f[2] != "int" {
 			c.Expect = "" // whether a limit of int64(2) is accepted is not a matter of C11
